@@ -6,6 +6,7 @@ Tree nodes (JSON lists):
   ['str', content, quote]  quoted literal             ['errlit', '#N/A']
   ['call', name, [args]]   function call (args may be None = omitted slot)
   ['neg', e]  ['bin', op, l, r]  ['paren', e]  ['arr', [elements]]
+  ['src', text, code]      opaque self-delimiting sub-formula that evaluates to the error `code`
 
 Rendering produces a *token list* first; "token boundary" is therefore known by
 construction and the implementation's lexer is never consulted.
@@ -55,6 +56,8 @@ def tokens(node, style='min', sep=','):
         return [node[2] + node[1] + node[2]]
     if k == 'errlit':
         return [node[1]]
+    if k == 'src':          # ['src', text, code]: an opaque error-producing sub-formula (already self-delimiting)
+        return [node[1].replace(',', sep) if sep != ',' and '"' not in node[1] else node[1]]
     if k == 'paren':
         return ['('] + tokens(node[1], style, sep) + [')']
     if k == 'call':
@@ -206,6 +209,8 @@ def ref_eval(node, env):
         return node[1]
     if k == 'errlit':
         raise Abort(node[1])
+    if k == 'src':
+        return Err(node[2])
     if k == 'paren':
         return ref_eval(node[1], env)
     if k == 'arr':
